@@ -8,11 +8,26 @@ from .model import AnalysisError, dotted, norm, walk_own
 from .paths import Parents, guards_of, np_atom, strip_not, flat_guards
 from .pat import has, find, first, name_of, match, _parse
 from .norm import view, builders
+from .paths import isinstance_atom, cmp_atom, ret_expr, enumerate_paths, eval3
 
 
 # ------------------------------------------------------------------ helpers
 def kwonly(func):
     return [p.name for p in func.params if p.kind == "kwonly"]
+
+
+def deref_const(ctx, scope, expr, depth=0):
+    """Follow a bare name to the module-level constant it denotes (a constant
+    moved to module level is the same constant); `re.compile(X)` -> X."""
+    if depth > 4:
+        return expr
+    if isinstance(expr, ast.Name):
+        r = ctx.prog.resolve_in(scope, expr.id)
+        if r and r[0] == "const" and r[2] is not None:
+            return deref_const(ctx, scope, r[2], depth + 1)
+    if isinstance(expr, ast.Call) and dotted(expr.func) == "re.compile" and expr.args:
+        return deref_const(ctx, scope, expr.args[0], depth + 1)
+    return expr
 
 
 def str_elts(expr):
@@ -180,107 +195,59 @@ def t2(ctx, res):
     # ObjectMeta.__new__ slot agreement
     new = ctx.func("ObjectMeta.__new__")
     slots = kwonly(new)
-    from .paths import decision_table as _dt, enumerate_paths as _ep
-    helpers = {}  # name -> Func (nested def or lambda bound to a local)
-    for g in new.nested.values():
-        helpers[g.name] = g
-    for st in new.body:
-        if isinstance(st, ast.Assign) and len(st.targets) == 1 and isinstance(st.targets[0], ast.Name) \
-                and isinstance(st.value, ast.Lambda):
-            for g in new.lambdas:
-                if g.node is st.value:
-                    helpers[st.targets[0].id] = g
-    inherit_fns = set()   # helpers f(value, attr): value if passed else inherited attr
-    lookup_fns = set()    # helpers f(attr, default): getattr(cls, attr, default)
-    for name, g in helpers.items():
-        args = [p.name for p in g.params]
-        rets = [p for p in _ep(g.body) if p.exit == "return"]
-        if len(args) == 2 and len(rets) == 1 and not rets[0].conds:
-            e = rets[0].exit_node.value
-            if isinstance(e, ast.Call) and dotted(e.func) == "getattr" and len(e.args) == 3 and norm(e.args[0]) == "cls" \
-                    and norm(e.args[1]) == args[0] and norm(e.args[2]) == args[1]:
-                lookup_fns.add(name)
-    for name, g in helpers.items():
-        args = [p.name for p in g.params]
-        if len(args) != 2:
-            continue
-
-        def rec(e, a0=args[0]):
-            a = np_atom(e)
-            if a and a[0] == a0:
-                return ("NP", a[1])
-            return None
-
-        def classify(p, args=args):
-            if p.exit != "return":
-                return p.exit
-            e = p.exit_node.value
-            if norm(e) == args[0]:
-                return "passed"
-            if isinstance(e, ast.Call) and dotted(e.func) in lookup_fns and e.args and norm(e.args[0]) == args[1]:
-                return "inherited"
-            return "other"
-        tbl, opq = _dt(g.body, ["NP"], rec, classify)
-        if not opq and tbl == {(True,): {"inherited"}, (False,): {"passed"}}:
-            inherit_fns.add(name)
+    vnew = view(new, ctx.prog).body
+    paths_new = enumerate_paths(vnew)
     for p in slots:
         n_params += 1
-        ok = False
-        why = "no store found"
-        for st in new.body:
-            if not (isinstance(st, ast.Assign) and len(st.targets) == 1):
-                continue
-            t = st.targets[0]
-            if not (isinstance(t, ast.Attribute) and norm(t.value) == "cls" and t.attr == p):
-                continue
-            v = st.value
-            if isinstance(v, ast.Call) and dotted(v.func) in inherit_fns and len(v.args) == 2:
-                ok = norm(v.args[0]) == p and isinstance(v.args[1], ast.Constant) and v.args[1].value == p
-                why = "cls.%s = inherit(%s, %r)" % (p, norm(v.args[0]), getattr(v.args[1], "value", None))
-            elif isinstance(v, ast.IfExp):
-                a = np_atom(v.test)
-                if a and a[0] == p:
-                    passed_branch, inherit_branch = (v.orelse, v.body) if a[1] else (v.body, v.orelse)
-                    ok = (norm(passed_branch) == p and isinstance(inherit_branch, ast.Call)
-                          and dotted(inherit_branch.func) in lookup_fns and inherit_branch.args
-                          and isinstance(inherit_branch.args[0], ast.Constant) and inherit_branch.args[0].value == p)
-                    why = "conditional inherit"
-            elif p == "properties":
-                ok = True
-            if not top_level_unconditional(new, st):
-                ok = False
-                why += " (conditional)"
-            break
-        if not ok:
-            # statement form: if <p not passed>: cls.p = lookup("p", d) else: cls.p = p
-            from .paths import decision_table as _dt2
+        if p == "properties":
+            continue
+        result = {}
+        unknown = False
+        for npass in (True, False):   # NP(p): the keyword was NOT passed
+            def ae(e, npass=npass, p=p):
+                a_ = np_atom(e)
+                if a_ and a_[0] == p:
+                    return npass if a_[1] else (not npass)
+                return None
 
-            def rec_p(e, p=p):
-                a = np_atom(e)
-                return ("NP", a[1]) if a and a[0] == p else None
-
-            def lab(path, p=p):
-                vals = [st.value for st in path.stmts if isinstance(st, ast.Assign) and any(norm(t) == f"cls.{p}" for t in st.targets)]
-                if not vals:
-                    return "unset"
-                v = vals[-1]
-                if norm(v) == p:
-                    return "passed"
-                if isinstance(v, ast.Call) and dotted(v.func) in lookup_fns and v.args and isinstance(v.args[0], ast.Constant) and v.args[0].value == p:
-                    return "inherited"
-                if isinstance(v, ast.Call) and dotted(v.func) in inherit_fns and len(v.args) == 2 and norm(v.args[0]) == p \
-                        and isinstance(v.args[1], ast.Constant) and v.args[1].value == p:
-                    return "slot"
-                return "other:" + norm(v)[:40]
-            tops = [st for st in new.body if not isinstance(st, (ast.FunctionDef, ast.Return))]
-            tbl, opq = _dt2(tops, ["NP"], rec_p, lab)
-            if tbl in ({(True,): {"inherited"}, (False,): {"passed"}}, {(True,): {"slot"}, (False,): {"slot"}}):
-                ok = True
-                why = "conditional statement form"
-        res.check(ok, new, f"cls.{p} = <{p} if passed else inherited {p}>", detail={"found": why},
+            def labels_of(v_):
+                if isinstance(v_, ast.IfExp):
+                    t_ = eval3(v_.test, ae)
+                    if t_ is True:
+                        return labels_of(v_.body)
+                    if t_ is False:
+                        return labels_of(v_.orelse)
+                    return labels_of(v_.body) | labels_of(v_.orelse)
+                if norm(v_) == p:
+                    return {"passed"}
+                if isinstance(v_, ast.Call) and dotted(v_.func) == "getattr" and len(v_.args) == 3 and norm(v_.args[0]) == "cls" \
+                        and isinstance(v_.args[1], ast.Constant):
+                    return {"inherited" if v_.args[1].value == p else f"inherited:{v_.args[1].value}"}
+                return {"other:" + norm(v_)[:40]}
+            labs = set()
+            for pth in paths_new:
+                feas = True
+                for cnd in pth.conds:
+                    if isinstance(cnd[0], str):
+                        continue
+                    val = eval3(cnd[0], ae)
+                    if val is not None and val != cnd[1]:
+                        feas = False
+                        break
+                if not feas or pth.exit != "return":
+                    continue
+                vals = [st.value for st in pth.stmts if isinstance(st, (ast.Assign, ast.AnnAssign)) and st.value is not None
+                        and any(norm(t) == f"cls.{p}" for t in (st.targets if isinstance(st, ast.Assign) else [st.target]))]
+                labs |= labels_of(vals[-1]) if vals else {"unset"}
+            result[npass] = labs
+            unknown = unknown or any(x.startswith("other:") for x in labs)
+        good = result == {True: {"inherited"}, False: {"passed"}}
+        res.judge(True if good else (None if unknown else False), new, f"cls.{p} = <{p} if passed else inherited {p}>",
+                  detail={"not passed": sorted(result[True]), "passed": sorted(result[False])},
                   reason="class keyword falls back to the inherited attribute of the SAME name, and is stored on the class")
     # properties store exists
-    res.check(any(isinstance(st, ast.Assign) and any(norm(t) == "cls.properties" for t in st.targets) for st in new.body),
+    res.check(any(isinstance(st, (ast.Assign, ast.AnnAssign)) and any(norm(t) == "cls.properties" for t in
+                  (st.targets if isinstance(st, ast.Assign) else [st.target])) for st in walk_own(vnew)),
               new, "cls.properties = {...}", reason="properties are stored on the class")
     # no constructor rebinds a keyword parameter before storing it
     for f in [own_init(c) for c in classes] + [new]:
@@ -322,9 +289,19 @@ def t3(ctx, res):
     # (a) get_children.paths
     gc = ctx.func("get_children")
     paths = None
+    paths_text = "paths"
     for st in walk_own(gc.body):
         if isinstance(st, ast.Assign) and any(norm(t) == "paths" for t in st.targets):
-            paths = str_elts(st.value)
+            paths = str_elts(deref_const(ctx, gc, st.value))
+    if paths is None:
+        # the list may live at module level: it is whatever the path-following loop iterates
+        for node, b in find("_get_path(MV_e, MV_p)", gc):
+            pv = name_of(b["MV_p"])
+            for x in walk_own(gc.body):
+                if isinstance(x, (ast.comprehension, ast.For)) and norm(x.target) == pv:
+                    got = str_elts(deref_const(ctx, gc, x.iter))
+                    if got is not None:
+                        paths, paths_text = got, norm(x.iter)
     if paths is None:
         raise AnalysisError("get_children.paths is no longer a literal list of strings")
     want = {expected_path(n, a) for n, a in pos.items()} | {"elements", "element"}
@@ -339,7 +316,7 @@ def t3(ctx, res):
     for node, b in find("_get_path(MV_e, MV_p)", gc):
         pv = name_of(b["MV_p"])
         for x in walk_own(gc.body):
-            if isinstance(x, (ast.comprehension, ast.For)) and norm(x.target) == pv and norm(x.iter) == "paths" \
+            if isinstance(x, (ast.comprehension, ast.For)) and norm(x.target) == pv and norm(x.iter) == paths_text \
                     and not getattr(x, "ifs", []):
                 followed = True
     res.check(followed, gc, "for path in paths: _get_path(element, path)", reason="every listed path is followed (no filter)")
@@ -575,19 +552,34 @@ def t4(ctx, res):
     gv = ctx.func("get_validators")
     excl = None
     loop_ok = False
-    for n in walk_own(gv.body):
-        if isinstance(n, ast.For) and norm(n.iter) == "_all_subclasses(Validator)":
-            loop_ok = True
-            for st in n.body:
-                if isinstance(st, ast.If) and len(st.body) == 1 and isinstance(st.body[0], ast.Continue):
-                    t = st.test
-                    if isinstance(t, ast.Compare) and isinstance(t.ops[0], ast.In) and isinstance(t.comparators[0], (ast.Tuple, ast.List, ast.Set)):
-                        excl = sorted(norm(e) for e in t.comparators[0].elts)
-                    else:
-                        excl = ["?" + norm(t)]
-            conts = [x for x in ast.walk(n) if isinstance(x, (ast.Continue, ast.Break))]
-            res.check(len(conts) == 1, gv, "single `continue` in the validator loop",
-                      reason="no validator class other than the two excluded is skipped")
+    other_guards = []
+    from .paths import flatten_guard
+    for b_ in builders(view(gv, ctx.prog, keep=tuple(gv.locals())).body):
+        if norm(b_.iter) != "_all_subclasses(Validator)" or b_.kind not in ("gen", "list"):
+            continue
+        loop_ok = True
+        tv_ = norm(b_.target)
+        excl = []
+        for t_, pol_ in b_.guards:
+            for t2, p2 in flatten_guard(t_, pol_):
+                c = cmp_atom(t2, p2)
+                if c and c[0] == tv_ and c[1] == "not in" and isinstance(c[4], (ast.Tuple, ast.List, ast.Set)):
+                    excl += [norm(e) for e in c[4].elts]
+                elif c and c[0] == tv_ and c[1] in ("!=", "is not"):
+                    excl.append(c[2])
+                elif c and c[0] == tv_:
+                    excl.append("?" + norm(t2))
+                else:
+                    tt, pp = strip_not(t2, p2)
+                    other_guards.append(("" if pp else "not ") + norm(tt))
+        excl = sorted(excl)
+        # anything that filters besides the exclusion must be the truthiness of the built validator
+        built = {norm(st.targets[0]) for st in walk_own(gv.body) if isinstance(st, ast.Assign) and len(st.targets) == 1
+                 and has(f"{tv_}.from_element(MV__)", st.value)}
+        stray = [g_ for g_ in other_guards if g_ not in built and g_ not in {f"{x} is not None" for x in built}
+                 and not g_.startswith(f"{tv_}.from_element(")]
+        res.check(not stray, gv, "single `continue` in the validator loop", detail={"other_filters": stray},
+                  reason="no validator class other than the two excluded is skipped")
     res.check(loop_ok, gv, "for validator_type in _all_subclasses(Validator)", reason="all validator classes are enumerated")
     res.check(excl == ["InstanceOf", "NoMatch"], gv, "if validator_type in (InstanceOf, NoMatch): continue",
               detail={"excluded": excl}, reason="exactly the two non-keyword validators are excluded")
@@ -705,10 +697,60 @@ def t6(ctx, res):
     res.check(set(s.values()) >= set(p) | {"object"}, "statham/serializers/json.py::_TYPE_MAPPING", "covers every parser type + object",
               detail={"serializer": sorted(s.values()), "parser": sorted(p)}, reason="every typed element class gets its type keyword back")
     pt = ctx.func("_parse_typed")
-    res.check(has("if MV_t == 'object':\n    return _parse_object(MV_s, MV_st)", pt), pt, "type == 'object' -> _parse_object", reason="object special-cased")
-    res.check(has("if MV_t == 'array':\n    return _parse_array(MV_s, MV_st)", pt), pt, "type == 'array' -> _parse_array", reason="array special-cased")
-    res.check(has("if isinstance(MV_t, list):\n    return _parse_multi_typed(MV_t, MV_s, MV_st)", pt), pt,
-              "list -> _parse_multi_typed", reason="type lists handled")
+    tv, sc = pt.params[0].name, pt.params[1].name
+    TYPE_EXPRS = (tv, f"{sc}['type']")
+
+    def eval_t(e, A):
+        ia = isinstance_atom(e)
+        if ia and ia[0] == tv and ia[2]:
+            kinds = set(ia[1])
+            if kinds <= {"list", "str"}:
+                return ("list" in kinds and A["LIST"]) or ("str" in kinds and A["STR"])
+        c = cmp_atom(e)
+        if c and c[1] in ("==", "!=") and c[0] in TYPE_EXPRS and c[2] in ("'object'", "'array'"):
+            v_ = A["OBJ"] if c[2] == "'object'" else A["ARR"]
+            return v_ if c[1] == "==" else (not v_)
+        return None
+
+    def lab_t(p):
+        if p.exit == "raise":
+            return "raise"
+        e = ret_expr(p)
+        if e is None:
+            return p.exit
+        for label, ptn in (("object", f"_parse_object({sc}, MV_st)"), ("array", f"_parse_array({sc}, MV_st)"),
+                           ("multi", f"_parse_multi_typed({tv}, {sc}, MV_st)")):
+            if match(_parse(ptn), e) is not None:
+                return label
+        if "_TYPE_MAPPING[" in norm(e) or any("_TYPE_MAPPING[" in norm(s_) for s_ in p.stmts if isinstance(s_, ast.AST)):
+            return "table"
+        return "other:" + norm(e)[:50]
+    from .paths import decision_table_eval
+    table, opaque = decision_table_eval(view(pt, ctx.prog).body, ["LIST", "STR", "OBJ", "ARR"], eval_t, lab_t)
+    opaque = {o for o in opaque if "state" not in o}  # `state or _ParseState()` style conditions do not matter here
+    bad = {}
+    for (lst, st_, obj, arr), labels in table.items():
+        if lst and st_ or obj and arr:
+            continue
+        if (obj or arr) and not st_:
+            continue
+        if lst:
+            want_l = {"multi"}
+        elif not st_:
+            want_l = {"raise"}
+        elif obj:
+            want_l = {"object"}
+        elif arr:
+            want_l = {"array"}
+        else:
+            want_l = {"table"}
+        if labels != want_l:
+            bad[str((lst, st_, obj, arr))] = sorted(labels)
+    unknown = bool(opaque) or any(x.startswith("other:") for v_ in bad.values() for x in v_)
+    res.judge(True if not bad else (None if unknown else False), pt,
+              "list -> _parse_multi_typed; 'object' -> _parse_object; 'array' -> _parse_array; other strings -> the type table; else error",
+              detail={"mismatches": bad, "opaque": sorted(opaque)},
+              reason="object, array and type lists are special-cased before the table lookup")
     ser = ctx.func("_serialize_element")
     res.check(has("MV_s['type'] = _TYPE_MAPPING[type(MV_e)]", ser), ser, "schema['type'] = _TYPE_MAPPING[type(element)]",
               reason="the type keyword is emitted for typed element classes")
@@ -717,8 +759,8 @@ def t6(ctx, res):
     fwd = None
     vpo = view(po, ctx.prog).body
     for n in walk_own(vpo):
-        if isinstance(n, ast.For) and isinstance(n.iter, (ast.List, ast.Tuple)):
-            got = str_elts(n.iter)
+        if isinstance(n, ast.For):
+            got = str_elts(deref_const(ctx, po, n.iter))
             if got is not None and any(name_of(b["MV_k"]) == norm(n.target) for _, b in find("MV_c[MV_k] = MV_s[MV_k]", n.body)):
                 fwd = got
     if fwd is None:
@@ -790,19 +832,75 @@ def t6(ctx, res):
     # _compose_elements semantics
     ce = ctx.func("_compose_elements")
     et = ce.params[0].name
-    res.check(has(f"return {et}(*MV_e)", ce) and has("return MV_e[0]", ce) and has("return Element()", ce), ce,
-              "0 -> Element(), 1 -> the element, n -> element_type(*elements)", reason="no element is dropped when composing")
+    vce = view(ce, ctx.prog).body
+    coll = {ce.params[1].name, f"list({ce.params[1].name})"}
+    for st in walk_own(view(ce, ctx.prog, keep=tuple(ce.locals())).body):
+        if isinstance(st, (ast.Assign, ast.AnnAssign)) and st.value is not None and norm(st.value) in coll:
+            tg = st.targets[0] if isinstance(st, ast.Assign) else st.target
+            if isinstance(tg, ast.Name):
+                coll.add(tg.id)
+    import operator as _op
+    OPS = {"==": _op.eq, "!=": _op.ne, "<": _op.lt, "<=": _op.le, ">": _op.gt, ">=": _op.ge}
+    cases = {}
+    opaque_c = set()
+    for n_el in (0, 1, 2, 3):
+        def ae(e, n_el=n_el):
+            c = cmp_atom(e)
+            if c and c[1] in OPS and isinstance(c[3], ast.Call) and dotted(c[3].func) == "len" and c[3].args \
+                    and norm(c[3].args[0]) in coll and isinstance(c[4], ast.Constant) and isinstance(c[4].value, int):
+                return OPS[c[1]](n_el, c[4].value)
+            if norm(e) in coll:
+                return n_el > 0
+            opaque_c.add(norm(e))
+            return None
+        labels = set()
+        for p_ in enumerate_paths(vce):
+            feas = True
+            for cnd in p_.conds:
+                if isinstance(cnd[0], str):
+                    continue
+                val = eval3(cnd[0], ae)
+                if val is not None and val != cnd[1]:
+                    feas = False
+                    break
+            if not feas:
+                continue
+            e = ret_expr(p_)
+            if e is None:
+                labels.add(p_.exit)
+            elif norm(e) == "Element()":
+                labels.add("Element()")
+            elif isinstance(e, ast.Subscript) and norm(e.value) in coll and norm(e.slice) == "0":
+                labels.add("the element")
+            elif isinstance(e, ast.Call) and norm(e.func) == et and len(e.args) == 1 and isinstance(e.args[0], ast.Starred) \
+                    and norm(e.args[0].value) in coll and not e.keywords:
+                labels.add("all")
+            else:
+                labels.add("other:" + norm(e)[:40])
+        cases[n_el] = labels
+    want_c = {0: {"Element()"}, 1: {"the element"}, 2: {"all"}, 3: {"all"}}
+    unknown = bool(opaque_c) or any(x.startswith("other:") for v_ in cases.values() for x in v_)
+    res.judge(True if cases == want_c else (None if unknown else False), ce,
+              "0 -> Element(), 1 -> the element, n -> element_type(*elements)",
+              detail={"cases": {str(k): sorted(v_) for k, v_ in cases.items()}, "opaque": sorted(opaque_c)},
+              reason="no element is dropped when composing")
     # multi typed: every member
     mt = ctx.func("_parse_multi_typed")
-    okm = False
-    for n in walk_own(mt.body):
+    okm = None
+    vmt = view(mt, ctx.prog).body
+    tl = mt.params[0].name
+    bmt = builders(vmt)
+    for n in walk_own(vmt):
         if isinstance(n, ast.Call) and dotted(n.func) == "AnyOf":
-            for a in n.args:
-                if isinstance(a, ast.Starred) and isinstance(a.value, (ast.GeneratorExp, ast.ListComp)):
-                    g = a.value.generators
-                    if len(g) == 1 and not g[0].ifs and norm(g[0].iter) == "type_list":
-                        okm = "'type': " + norm(g[0].target) in norm(a.value.elt)
-    res.check(okm, mt, "AnyOf(*(parse_element({**schema, 'type': t}) for t in type_list))",
+            for a_ in n.args:
+                if not isinstance(a_, ast.Starred):
+                    continue
+                srcs = [b_ for b_ in bmt if b_.node is a_.value or (isinstance(a_.value, ast.Name) and b_.name == a_.value.id)]
+                for b_ in srcs:
+                    good = not b_.guards and norm(b_.iter) == tl and ("'type': " + norm(b_.target)) in norm(b_.elt) \
+                        and has("parse_element(MV__, MV__)", b_.elt)
+                    okm = good if okm is None else (okm and good)
+    res.judge(okm, mt, "AnyOf(*(parse_element({**schema, 'type': t}) for t in type_list))",
               reason="the AnyOf is built from EVERY member of the type list (no slice, no filter)")
     # required conservation
     pp = ctx.func("_parse_properties")
@@ -1126,6 +1224,57 @@ def t15(ctx, res):
                 verdict = False
             else:
                 verdict = None
+    # caller-supplied definitions are serialized with references too: the classes THEY reach must be collected as well
+    dparam = next((p_.name for p_ in sj.params if p_.name == "definitions"), None)
+    if dparam is not None:
+        serialized_defs = any(norm(b.iter) in (f"{dparam}.items()", f"{dparam}.values()") for b in builders(vb))
+        collected = [norm(a) for n_ in walk_own(sj.body) if isinstance(n_, ast.Call) and dotted(n_.func) == "get_object_classes"
+                     for a in n_.args]
+        tainted = {dparam}
+        for _ in range(3):
+            for n_ in walk_own(sj.body):
+                if isinstance(n_, (ast.For, ast.comprehension)) and any(isinstance(x, ast.Name) and x.id in tainted for x in ast.walk(n_.iter)):
+                    tainted |= {x.id for x in ast.walk(n_.target) if isinstance(x, ast.Name)}
+        covers = any(isinstance(x, ast.Name) and x.id in tainted for n_ in walk_own(sj.body)
+                     if isinstance(n_, ast.Call) and dotted(n_.func) == "get_object_classes" for a in n_.args for x in ast.walk(a))
+        res.judge(True if (covers or not serialized_defs) else (False if collected else None), sj,
+                  "get_object_classes(*elements, *definitions.values())", detail={"collected_from": collected},
+                  reason="an element passed in `definitions` is serialized with '$ref's to the object classes it contains, but "
+                         "classes are only collected from the roots: serialize_json(Root, definitions={'Foo': Some}) with "
+                         "Some.o: Other emits a dangling '#/definitions/Other'")
     res.judge(verdict, sj, "definitions = {cls.__name__: ... for every reachable object class}", detail=detail,
               reason="the first root is left out of `definitions` unconditionally, but another root may refer to it "
                      "(serialize_json(A, B) with B.a: A emits a dangling '#/definitions/A')")
+
+
+@rule("T16", "a caller-supplied definition cannot replace the definition of an object class")
+def t16(ctx, res):
+    sj = ctx.func("serialize_json")
+    dparam = next((p_.name for p_ in sj.params if p_.name == "definitions"), None)
+    if dparam is None:
+        raise AnalysisError("serialize_json no longer takes `definitions`")
+    merges = []
+    for n in walk_own(sj.body):
+        if isinstance(n, ast.Call) and isinstance(n.func, ast.Attribute) and n.func.attr == "update" and "definitions" in norm(n.func.value) \
+                and any(dparam in norm(a) for a in n.args):
+            merges.append(n)
+        if isinstance(n, ast.Assign) and any(isinstance(t, ast.Subscript) and "definitions" in norm(t.value) for t in n.targets) \
+                and any(isinstance(x, ast.Name) and x.id == dparam for x in ast.walk(n)):
+            merges.append(n)
+    vb = view(sj, ctx.prog, keep=tuple(sj.locals())).body
+    for b in builders(vb):
+        if b.kind == "dict" and norm(b.iter).startswith(dparam + ".") and b.name and "definitions" in b.name:
+            merges.append(b.node)
+    # a clash test: membership of a caller key among the class names (or the reverse), or a set intersection
+    guarded = False
+    for n in walk_own(sj.body):
+        if isinstance(n, ast.Compare) and any(isinstance(o, (ast.In, ast.NotIn)) for o in n.ops) and \
+                ("definitions" in norm(n) and ("__name__" in norm(n) or "key" in norm(n.left))):
+            guarded = True
+        if isinstance(n, ast.BinOp) and isinstance(n.op, ast.BitAnd) and dparam in norm(n):
+            guarded = True
+    res.judge(True if (guarded or not merges) else False, sj, "schema['definitions'].update({key: serialize(element) ...})",
+              detail={"merges": [norm(m)[:80] for m in merges]},
+              reason="caller-supplied definitions are merged into the same mapping as the object classes, keyed by caller-chosen "
+                     "names, with no clash test: serialize_json(Outer, definitions={'Inner': Integer()}) replaces the class "
+                     "Inner that '#/definitions/Inner' refers to")
